@@ -51,6 +51,38 @@ type vtCase struct {
 	Term    string   `json:"term"`  // outcome of the model (statistics only, never compared here)
 	Wrap    bool     `json:"wrap"`  // invokable-only / streamable-only tools are built with components/tool/utils (NewTool / NewStreamTool)
 	OptList bool     `json:"optlist"` // the tools are given per call (WithToolList); the node is configured with another decoy only
+	Deep    bool     `json:"deep"`    // panicking tools panic from a deep recursion (long unwinding widens the window after the panic)
+	JSONArg bool     `json:"jsonargs"` // arguments are JSON objects {"v":..,"o":..} ("o" omitted in some calls); with wrap, the tools are built
+	// by components/tool/utils with the DEFAULT unmarshalling into a pointer-to-struct (ta, tc) or map (tb) input
+}
+
+// typed input of the tools built with components/tool/utils in jsonargs cases
+type vtIn struct {
+	V string `json:"v"`
+	O string `json:"o,omitempty"`
+}
+
+// canonical argument text of a decoded input: what the tool body sees is what it reports and answers
+func vtCanon(v, o string) string {
+	if o == "" {
+		return `{"v":"` + v + `"}`
+	}
+	return `{"v":"` + v + `","o":"` + o + `"}`
+}
+
+//go:noinline
+func vtDeepPanic(n int, v string) int {
+	if n == 0 {
+		panic(v)
+	}
+	return vtDeepPanic(n-1, v) + 1
+}
+
+func (r *vtRun) doPanic(v string) {
+	if r.c.Deep {
+		vtDeepPanic(300000, v)
+	}
+	panic(v)
 }
 
 type vtErr struct{ Name, Args string }
@@ -59,7 +91,7 @@ func (e *vtErr) Error() string { return "vferr[" + e.Name + "|" + e.Args + "]" }
 
 var vtErrRe = regexp.MustCompile(`vferr\[([^|\]]*)\|([^\]]*)\]`)
 
-const vtStepTimeout = 3 * time.Second
+const vtStepTimeout = 1500 * time.Millisecond
 
 // ------------------------------------------------------------------------------------------------ one run
 
@@ -131,6 +163,7 @@ func (r *vtRun) enter(name, args string) *vtInv {
 			return r.inv[i]
 		}
 	}
+	r.openAll() // an invocation that matches no call of the case: the schedule cannot be forced any more
 	return &vtInv{call: -1, gate: make(chan struct{}, 8), ack: make(chan struct{}, 8)}
 }
 
@@ -168,7 +201,7 @@ func (r *vtRun) invokable(name, args, beh string, handler bool) (string, error) 
 	case "panic":
 		r.emit("tend", "name", name, "args", args, "h", handler, "res", "panic", "out", "")
 		inv.acked()
-		panic("vfpanic[" + name + "|" + args + "]")
+		r.doPanic("vfpanic[" + name + "|" + args + "]")
 	}
 	out := name + "(" + args + ")"
 	r.emit("tend", "name", name, "args", args, "h", handler, "res", "ok", "out", out)
@@ -190,7 +223,7 @@ func (r *vtRun) streamable(name, args, beh string, nchunks int) (*schema.StreamR
 		r.emit("tend", "name", name, "args", args, "h", false, "res", "panic", "out", "")
 		atomic.AddInt32(&r.active, -1)
 		inv.acked()
-		panic("vfpanic[" + name + "|" + args + "]")
+		r.doPanic("vfpanic[" + name + "|" + args + "]")
 	}
 	chunks := vtChunks(name, args, nchunks)
 	capacity := 0
@@ -482,7 +515,7 @@ func vtRunCaseBody(r *vtRun) []string {
 	if sched == nil {
 		sched = []int{}
 	}
-	r.emit("case", "id", c.ID, "mode", c.Mode, "graph", c.Graph, "handler", c.Handler, "calls", calls, "tools", tools, "sched", sched, "wrap", c.Wrap, "optlist", c.OptList)
+	r.emit("case", "id", c.ID, "mode", c.Mode, "graph", c.Graph, "handler", c.Handler, "calls", calls, "tools", tools, "sched", sched, "wrap", c.Wrap, "optlist", c.OptList, "deep", c.Deep, "jsonargs", c.JSONArg)
 
 	ctx := context.Background()
 	bts := make([]tool.BaseTool, 0, len(c.Tools))
@@ -493,6 +526,18 @@ func vtRunCaseBody(r *vtRun) []string {
 		ms := toolutils.WithMarshalOutput(func(_ context.Context, o interface{}) (string, error) { return o.(string), nil })
 		info := &schema.ToolInfo{Name: t.Name, Desc: "verif tool"}
 		switch {
+		case t.Kind == "inv" && c.Wrap && c.JSONArg && t.Name == "tb":
+			bts = append(bts, toolutils.NewTool(info, func(_ context.Context, a map[string]string) (string, error) {
+				return r.invokable(t.Name, vtCanon(a["v"], a["o"]), t.Beh, false)
+			}, ms))
+		case t.Kind == "inv" && c.Wrap && c.JSONArg:
+			bts = append(bts, toolutils.NewTool(info, func(_ context.Context, a *vtIn) (string, error) {
+				return r.invokable(t.Name, vtCanon(a.V, a.O), t.Beh, false)
+			}, ms))
+		case t.Kind == "str" && c.Wrap && c.JSONArg:
+			bts = append(bts, toolutils.NewStreamTool(info, func(_ context.Context, a *vtIn) (*schema.StreamReader[string], error) {
+				return r.streamable(t.Name, vtCanon(a.V, a.O), t.Beh, t.Chunks)
+			}, ms))
 		case t.Kind == "inv" && c.Wrap:
 			bts = append(bts, toolutils.NewTool(info, func(_ context.Context, a string) (string, error) {
 				return r.invokable(t.Name, a, t.Beh, false)
